@@ -579,7 +579,15 @@ impl<'a> Stepper<'a> {
                 }
                 let inc = match (&d, inc) {
                     (_, Some(i)) => i,
-                    (ItemDesc::New(k, ..), None) => verif::cache_estimate(&self.rig.cache, *k),
+                    (ItemDesc::New(k, ..), None) => {
+                        match crate::catch(|| verif::cache_estimate(&self.rig.cache, *k)) {
+                            Some(e) => e,
+                            None => {
+                                self.emit("p.item inc=0 obs=-", "PANIC");
+                                return false;
+                            }
+                        }
+                    }
                     _ => 0,
                 };
                 self.emit(
@@ -742,6 +750,44 @@ pub struct GenOpts {
     pub w_close: u64,
     pub w_ttl: u64,
     pub collisions: bool,
+}
+
+/// configuration sweep of C20: small and non-power-of-two counters, tiny and negative max_cost,
+/// buffer size 1, buffer_items 0/1
+pub fn sweep_config(rng: &mut Rng, i: usize) -> Config {
+    Config {
+        num_counters: 1 + (i % 70),
+        max_cost: *rng.pick(&[1i64, 1, 2, 57, 100, 1000, -5]),
+        buf_size: *rng.pick(&[1usize, 1, 2, 64]),
+        buf_items: *rng.pick(&[0usize, 1, 2, 64]),
+        metrics: rng.chance(1, 2),
+        ignore_internal: rng.chance(1, 2),
+        coster: rng.below(2) as u8,
+        validator: 0,
+    }
+}
+
+/// what `finalize()` says about a configuration
+pub fn finalize_line(num_counters: usize, max_cost: i64, buf_size: usize) -> String {
+    verif::set_parked(true);
+    let r = CacheBuilder::<u64, u64>::new(num_counters, max_cost)
+        .set_key_builder(SplitKeyBuilder)
+        .set_hasher(DetHasher::default())
+        .set_buffer_size(buf_size)
+        .finalize();
+    let ans = match &r {
+        Ok(_) => "ok".to_string(),
+        Err(CacheError::InvalidNumCounters) => "InvalidNumCounters".to_string(),
+        Err(CacheError::InvalidMaxCost) => "InvalidMaxCost".to_string(),
+        Err(CacheError::InvalidBufferSize) => "InvalidBufferSize".to_string(),
+        Err(e) => format!("other:{}", e).replace(' ', "_"),
+    };
+    if r.is_ok() {
+        let _ = ParkedProcessor::<u64, stretto::DefaultUpdateValidator<u64>, stretto::DefaultCacheCallback<u64>, DetHasher>::take();
+        let _ = ParkedPolicyWorker::<DetHasher>::take();
+    }
+    verif::set_parked(false);
+    format!("f.config counters={} max={} buf={} | ret={}", num_counters, max_cost, buf_size, ans)
 }
 
 pub fn random_config(rng: &mut Rng) -> Config {
